@@ -530,5 +530,5 @@ func c20Index(p *Prog, r *Report) {
 // c20IndexSkips: audited decisions that keep a package out of the index.
 var c20IndexSkips = []string{
 	"range-end: param0",
-	"extractor.Extractor.ToPURL(param0[ι].Extractor,param0[ι]) == nil:*github.com/google/osv-scalibr/purl.PackageURL",
+	"extractor.ToPURL(param0[ι].Extractor,param0[ι]) == nil:*github.com/google/osv-scalibr/purl.PackageURL",
 }
